@@ -18,7 +18,9 @@
 EXTENDS Integers, Sequences, FiniteSets, TLC, Json
 
 Faults  == {"none", "badOption", "badFormat", "missingPath", "missingPathAfterExisting",
-            "missingConfig", "malformedYaml", "malformedJson", "malformedProjectYaml"}
+            "missingConfig", "malformedYaml", "malformedJson", "malformedProjectYaml",
+            \* a config file that parses but whose top level is not a mapping (a YAML list, a YAML scalar, a JSON array)
+            "listYaml", "scalarYaml", "arrayJson"}
 Formats == {"text", "json", "sarif"}
 Inputs  == {"zero", "file", "dir", "hostile"}      \* what the targets contain
 
@@ -36,8 +38,9 @@ Step(p) == phase' = p /\ UNCHANGED <<fault, input, fmt, nviol, rendered, exit>>
 ParseArgs     == phase = "parse" /\ IF fault \in {"badOption", "badFormat"} THEN Abort ELSE Step("paths")
 ValidatePaths == phase = "paths" /\ IF fault \in {"missingPath", "missingPathAfterExisting"} THEN Abort
                                     ELSE Step("config")
-LoadConfig    == phase = "config" /\ IF fault \in {"missingConfig", "malformedYaml", "malformedJson",
-                                                   "malformedProjectYaml"} THEN Abort ELSE Step("lint")
+ConfigFaults  == {"missingConfig", "malformedYaml", "malformedJson", "malformedProjectYaml",
+                  "listYaml", "scalarYaml", "arrayJson"}
+LoadConfig    == phase = "config" /\ IF fault \in ConfigFaults THEN Abort ELSE Step("lint")
 Lint   == phase = "lint" /\ nviol' = Count(input) /\ phase' = "render"
           /\ UNCHANGED <<fault, input, fmt, rendered, exit>>
 Render == phase = "render" /\ rendered' = TRUE /\ phase' = "exit"
